@@ -125,6 +125,16 @@ def _outcome(ctx: Ctx, files: typing.Dict[str, str], what: str, extra_roots: typ
             p = os.path.join(d, rel)
             try:
                 os.makedirs(os.path.dirname(p), exist_ok=True)
+                if isinstance(text, (list, tuple)):
+                    # a name in the namespace directory need not name a regular text file
+                    if text[0] == "dir":
+                        os.makedirs(p, exist_ok=True)
+                    elif text[0] == "link":
+                        os.symlink(os.path.join(d, text[1]), p)
+                    elif text[0] == "bytes":
+                        with open(p, "wb") as fb:
+                            fb.write(bytes.fromhex(text[1]))
+                    continue
                 with open(p, "w", newline="", encoding="utf-8") as f:
                     f.write(text)
             except OSError:
@@ -232,8 +242,28 @@ def check_names(case: typing.Any, ctx: Ctx) -> Info:
         files[base + "/Twin.1.0.dsdl"] = bodies[0]
         other = {0: "6200.Twin.1.0.dsdl", 1: "Twin.1.0.uavcan", 2: "6201.Twin.1.0.uavcan"}[twin["kind"] % 3]
         files[base + "/" + other] = bodies[twin["body"] % len(bodies)]
+    special = case.get("special")
+    if special is not None:
+        # a well-formed definition file *name* that names something else: a directory, a symbolic link (to a definition inside the
+        # namespace, to a file outside of it, to nothing), a file that is not text
+        rel = "/".join([ROOT] + list(special["dirs"]) + [special["name"]])
+        kind = special["kind"] % 5
+        if kind == 0:
+            files[rel] = ["dir"]
+        elif kind == 1:
+            files["outside/Elsewhere.1.0.dsdl"] = bodies[1]
+            files[rel] = ["link", "outside/Elsewhere.1.0.dsdl"]
+        elif kind == 2:
+            files[ROOT + "/Real.1.0.dsdl"] = bodies[1]
+            files[rel] = ["link", ROOT + "/Real.1.0.dsdl"]
+        elif kind == 3:
+            files[rel] = ["link", "nowhere/Gone.1.0.dsdl"]
+        else:
+            files[rel] = ["bytes", ["ff", "c3", "e28228", "80", "f0288cbc", "fffe410042"][special["bytes"] % 6] + "0a" + "407365616c65640a"]
     out = _outcome(ctx, files, "names")
     info = _classify("names", out, True)
+    if special is not None:
+        info.classes = list(info.classes) + ["special:" + ["directory", "link-outside", "link-inside", "link-dangling", "not-text"][special["kind"] % 5]]
     info.nontrivial = True
     info.sample = {"files": sorted(files), "outcome": out}
     return info
@@ -317,7 +347,12 @@ def parts(ctx: Ctx) -> typing.List[Part]:
         {"expr": st.one_of(st.integers(0, len(TARGETED) - 1), st.integers(0, len(TARGETED) - 1), extreme), "sink": st.integers(0, len(SINKS) - 1), "before": st.integers(0, 4), "newline": st.booleans(), "as_dependency": st.booleans()}
     )
     twin = st.one_of(st.none(), st.none(), st.fixed_dictionaries({"dirs": st.lists(st.sampled_from(["sub", "x"]), max_size=1), "kind": st.integers(0, 2), "body": st.integers(0, 2)}))
-    name_cases = st.fixed_dictionaries({"entries": st.lists(st.tuples(st.lists(_dir_name(), max_size=2), _file_name()), min_size=0, max_size=3), "twin": twin})
+    special = st.one_of(
+        st.none(),
+        st.none(),
+        st.fixed_dictionaries({"kind": st.integers(0, 4), "dirs": st.lists(st.sampled_from(["sub", "deep"]), max_size=2), "name": st.sampled_from(["Odd.1.0.dsdl", "7000.Odd.1.0.dsdl", "Odd.1.0.uavcan", "A.2.3.dsdl"]), "bytes": st.integers(0, 5)}),
+    )
+    name_cases = st.fixed_dictionaries({"entries": st.lists(st.tuples(st.lists(_dir_name(), max_size=2), _file_name()), min_size=0, max_size=3), "twin": twin, "special": special})
     out = [
         Part("mutation", mutation_cases, check_text, weight=5),
         Part("targeted", targeted_cases, check_targeted, weight=3),
